@@ -51,6 +51,13 @@ def gen_instance(rng: random.Random, family: str | None = None, max_jobs=4, max_
     return family, jobs
 
 
+def make_huge(rng: random.Random, jobs):
+    """Some durations far beyond 2**53 (where float64 stops being exact), the rest unchanged: all of the library's
+    time arithmetic the properties speak about is integer arithmetic."""
+    big = 2 ** rng.choice([53, 54, 60])
+    return [[(ms, d if rng.random() < 0.6 else big + rng.randint(0, 3)) for ms, d in job] for job in jobs]
+
+
 def is_flexible(jobs) -> bool:
     return any(len(ms) > 1 for job in jobs for ms, _ in job)
 
